@@ -41,7 +41,7 @@ MUTATOR_NAMES = ["add", "update", "clear", "pop", "popitem", "remove", "discard"
 
 
 def shards(tier, seed):
-    mult = 1 if tier == "quick" else 12
+    mult = 1 if tier == "quick" else 24
     return [{"n": 30 * mult, "steps": 40} for _ in range(16)]
 
 
